@@ -164,6 +164,7 @@ class FnView:
         self._ks = {}
         self._cw = None
         self._stop = None
+        self._dw = None
 
     # -- CFG ---------------------------------------------------------------------------
     def succs(self, b):
@@ -495,12 +496,42 @@ class FnView:
                 if rest is None:
                     continue
                 out |= self._origins_call(t, rest, taint, visiting, d[1], (d[1], len(self.blocks[d[1]]["s"])))
+        # taint mode: writes through references that (by provenance) point into the value being read
+        if taint and len(visiting) < 4 and out:
+            out |= self._alias_write_origins(l, proj, out, visiting, at)
         # writes performed by closures that captured `&mut l`
         if getattr(self, "model", None) is not None and len(visiting) < 60:
             out |= self._closure_write_origins(l, proj, taint, at)
         if not visiting - {(l, proj)}:
             self._origin_cache[key] = out
         return out
+
+    def _alias_write_origins(self, l, proj, cur, visiting, at):
+        res = set()
+        dw = self._dw
+        if dw is None:
+            dw = [(b, i, s) for b, i, s in self.iter_stmts() if "*" in s["lhs"]["p"]]
+            self._dw = dw
+        roots = {(o.kind, o.a, o.b): o for o in cur if o.kind in ("load", "call", "param")}
+        if not roots:
+            return res
+        for b, i, s in dw:
+            base = s["lhs"]["l"]
+            if base == l:
+                continue
+            if at is not None and not self.def_reaches(b, i, at):
+                continue
+            F = tuple(self._named_fields(s["lhs"]["p"]))
+            for o in self._origins_local(base, (), False, visiting | {(l, proj)}, (b, i)):
+                r = roots.get((o.kind, o.a, o.b))
+                if r is None:
+                    continue
+                wp = tuple(x for x in tuple(o.proj) + F if x != "[]")
+                rp = tuple(x for x in r.proj if x != "[]")
+                n = min(len(wp), len(rp))
+                if wp[:n] == rp[:n]:
+                    res |= self._origins_rvalue(s["rv"], (), True, visiting | {(l, proj)}, b, i, (b, i))
+        return res
 
     def _closure_write_origins(self, l, proj, taint, at):
         out = set()
